@@ -659,6 +659,10 @@ def setup():
     if rc != 0:
         log("setup: Coq build failed")
         return 1
+    bad = coq_hygiene()
+    if bad:
+        log("setup: hygiene gate: forbidden vernacular in the development:\n  " + "\n  ".join(bad[:30]))
+        return 1
     for m in mods.values():
         for leg in m.LEGS:
             exe, err = build_driver(leg["driver"], leg.get("tags", "verif"))
